@@ -52,3 +52,39 @@ def inductive_controller(timeout=600):
         with open(p, "wb") as fh:
             pickle.dump(out, fh)
     return out
+
+
+def abstraction_covers():
+    """Consistency of the hand-kept Apalache skeleton with the main design spec: on the same
+    small constants every controller state (fc, k, ks, iter, sc, ss) at the top of the loop that
+    is reachable in BadsRun.tla (deterministic mode) is reachable in BadsCtlApa.tla."""
+    from .tlc import run_tlc
+    from .tlaval import parse_dump
+    keyf = hashlib.sha256()
+    for f in ("BadsCtlApa.tla", "BadsCtlApaMC.tla", "BadsCtlApaMC.cfg", "BadsRun.tla", "BadsRules.tla", "BadsRun_xcheck.cfg"):
+        with open(os.path.join(SPECS, f), "rb") as fh:
+            keyf.update(fh.read())
+    p = os.path.join(CACHE, "design", "xcheck-" + keyf.hexdigest()[:16] + ".pkl")
+    os.makedirs(os.path.dirname(p), exist_ok=True)
+    if os.path.exists(p):
+        with open(p, "rb") as fh:
+            return pickle.load(fh)
+    ra = run_tlc("BadsCtlApaMC", timeout=600, dump="out", keep=True, deadlock=False)
+    rb = run_tlc("BadsRun", cfg="BadsRun_xcheck.cfg", timeout=600, dump="out", keep=True)
+    if not ra.ok or not rb.ok:
+        raise MachineryError("cross-check TLC runs failed: %s %s" % (ra.summary(), rb.summary()))
+    sa = parse_dump(os.path.join(ra.workdir, "out.dump"))
+    sb = parse_dump(os.path.join(rb.workdir, "out.dump"))
+    shutil.rmtree(ra.workdir, ignore_errors=True)
+    shutil.rmtree(rb.workdir, ignore_errors=True)
+
+    def tup(s):
+        return (s["fc"], s["k"], s["ks"], s["iter"], s["sc"], s["ss"])
+    A = {tup(s) for s in sa if s["phase"] == "loopbegin"}
+    B = {tup(s) for s in sb if s["phase"] == "loopbegin"}
+    out = {"skeleton_loopbegin_states": len(A), "badsrun_loopbegin_states": len(B),
+           "covered": B <= A, "missing": sorted(B - A)[:5]}
+    if out["covered"]:
+        with open(p, "wb") as fh:
+            pickle.dump(out, fh)
+    return out
